@@ -16,6 +16,8 @@ const INTERVAL_S: i64 = 10;
 pub enum Op {
     Ack(usize),
     Action(usize),
+    /// an action on the open act that the engine refuses (`error` without a code): nothing may change
+    Refused(usize),
     AdvSmall,
     AdvBig,
     Tick,
@@ -52,6 +54,7 @@ fn step_ref(s: &Ref, op: &Op, max_retry: i32) -> (Ref, Vec<(usize, i32)>, Vec<us
                 r.status = 1;
             }
         }
+        Op::Refused(_) => {}
         Op::Action(p) => {
             if !t.acted[*p] {
                 t.acted[*p] = true;
@@ -124,6 +127,10 @@ fn ops_of(s: &Ref) -> Vec<Op> {
         if !s.acted[p] {
             v.push(Op::Action(p));
         }
+    }
+    // on the first process only (keeps the state graph small): a refused action
+    if !s.acted[0] {
+        v.push(Op::Refused(0));
     }
     v.push(Op::AdvSmall);
     v.push(Op::AdvBig);
@@ -214,6 +221,11 @@ fn apply(im: &mut Impl, op: &Op) {
             let pid = ["p1", "p2"][*p];
             let tid = im.tids[*p].clone();
             let _ = im.sess.act("complete", pid, &tid, &acts::Vars::new());
+        }
+        Op::Refused(p) => {
+            let pid = ["p1", "p2"][*p];
+            let tid = im.tids[*p].clone();
+            let _ = im.sess.act("error", pid, &tid, &acts::Vars::new());
         }
         Op::AdvSmall => im.sess.w.advance_ms(1),
         Op::AdvBig => im.sess.w.advance_ms(INTERVAL_S * 1000 + 1),
@@ -507,6 +519,7 @@ fn classify(s: &Ref, op: &Op, obs: &BTreeMap<usize, (u8, i32)>, exp: &BTreeMap<u
     let opn = match op {
         Op::Ack(_) => "ack",
         Op::Action(_) => "action",
+        Op::Refused(_) => "refused-action",
         Op::AdvSmall | Op::AdvBig => "advance",
         Op::Tick => "tick",
         Op::Redo => "redo",
@@ -535,7 +548,7 @@ impl Check for C09 {
         CheckInfo {
             id: "C09",
             level: "model_checking",
-            rule: "two processes of a one-interrupt workflow, an acknowledging channel on type=act; reference state = per stored message {status, retry, stale} + which acts were answered; breadth-first over every reference state reachable within the depth, every edge {ack(m), complete(act), advance(1ms | interval+1ms), tick, redo, clear(None|p1|p2)} executed on a fresh real engine by replaying the path, then rows of the message collection and the deliveries (id, retry_times, content, stored-before-handler) compared with the prediction; max_message_retry_times in {1,2,3}; both stores".into(),
+            rule: "two processes of a one-interrupt workflow, an acknowledging channel on type=act; reference state = per stored message {status, retry, stale} + which acts were answered; breadth-first over every reference state reachable within the depth, every edge {ack(m), complete(act), an action the engine refuses, advance(1ms | interval+1ms), tick, redo, clear(None|p1|p2)} executed on a fresh real engine by replaying the path, then rows of the message collection and the deliveries (id, retry_times, content, stored-before-handler) compared with the prediction; max_message_retry_times in {1,2,3}; both stores".into(),
             assumptions: vec![
                 "virtual clock; the tick is the explicit operation the timer would issue; engine work is drained FIFO after every operation".into(),
                 "ack of a message that is not in status created is accepted as the code does (status acked); only silence is required of it".into(),
